@@ -1,11 +1,113 @@
-(* C15 — property theorems only: each closed by [exact] of a lemma proved elsewhere. *)
-From Coq Require Import List String ZArith.
-From Helm Require Import Chart.Paths Chart.Archive Chart.Files Chart.Save Chart.Load.
+(* C15 — Packaging and loading a chart preserves its content.
+   Property theorems only: each closed by [exact] of a lemma proved under Chart/.
+   Third-party codecs (YAML for Chart.yaml / Chart.lock / values.yaml, json.Valid, semver,
+   the string sanitiser, tar+gzip of nested archives, .helmignore matching) are universally
+   quantified functions; the hypotheses about them are written out in each statement. *)
+From Coq Require Import List String Ascii Bool ZArith.
+From Helm Require Import Values.Tree Chart.Paths Chart.Archive Chart.Files Chart.Save Chart.Load
+  Chart.Wf Chart.LoadProofs Chart.Examples15.
 Import ListNotations.
 Local Open Scope string_scope.
 
-(* K4: bytes.TrimPrefix(data, utf8bom) is applied to every file *)
+(* ---------- round trip: Save, then LoadArchive (chart without dependencies) ---------- *)
+(* For every well-formed chart (metadata accepted by Validate and already in sanitised form,
+   apiVersion v2 — or v1 without dependencies and lock —, a name usable as base directory,
+   Values = what the raw values.yaml documents parse to, a JSON schema, clean relative
+   template names under templates/, other files outside the reserved names and directories)
+   in which no file begins with a UTF-8 BOM: Save succeeds, and if the archive fits the
+   limits, loading it yields the same metadata, lock, raw and parsed values, schema,
+   templates and files, byte for byte and in the same order. *)
+Theorem C15_roundtrip :
+  forall (md_enc : meta -> string) (lock_enc : lockv -> string) (json_valid : string -> bool)
+         (sanitize : meta -> meta) (is_semver : string -> bool) (rest_valid : meta -> bool)
+         (md_merge : meta -> string -> option meta) (lock_dec : string -> option (option lockv))
+         (parse_values : string -> option val) (untar : string -> tstream) (maxt maxf : Z),
+  (forall m, validate sanitize is_semver rest_valid m = Some m -> md_merge empty_meta (md_enc m) = Some m) ->
+  (forall m, has_bom (md_enc m) = false) ->
+  (forall l, lock_dec (lock_enc l) = Some (Some l)) ->
+  (forall l, has_bom (lock_enc l) = false) ->
+  forall c : chart,
+  wf_chart parse_values json_valid sanitize is_semver rest_valid c -> no_bom c ->
+  exists es, save md_enc lock_enc json_valid sanitize is_semver rest_valid c = Some es /\
+    (fits maxt maxf es -> forall fuel, exists c',
+       load_archive md_merge lock_dec parse_values untar sanitize is_semver rest_valid maxt maxf (S fuel)
+                    (mkTS false es false) = inr c' /\
+       same_content c c').
+Proof. exact roundtrip. Qed.
+Print Assumptions C15_roundtrip.
+
+(* the hypotheses are satisfiable: a toy codec instance and a chart with lock, values, schema,
+   a template, a file in a dot directory; its round trip evaluated on the model *)
+Example C15_roundtrip_ex :
+  ((forall m, validate sanK semverK restK m = Some m -> mergeK empty_meta (encK m) = Some m) /\
+   (forall m, has_bom (encK m) = false) /\
+   (forall l, lock_decK (lock_encK l) = Some (Some l)) /\
+   (forall l, has_bom (lock_encK l) = false)) /\
+  (wf_chart parseK jsonK sanK semverK restK c_ok /\ no_bom c_ok) /\
+  exists es, save encK lock_encK jsonK sanK semverK restK c_ok = Some es /\ fits 1000 100 es /\
+    exists c', load_archive mergeK lock_decK parseK untarK sanK semverK restK 1000 100 1 (mkTS false es false) = inr c'
+               /\ chart_eqb c_ok c' = true.
+Proof. exact (conj codecK_ok (conj c_ok_wf c_ok_saved)). Qed.
+Print Assumptions C15_roundtrip_ex.
+
+(* K4 (known finding): both loaders strip a leading BOM from every file.  On the faithful
+   model: a well-formed chart with one binary file EF BB BF 'a' 'b' 'c' is saved, loads, and
+   the file comes back as 'a' 'b' 'c'. *)
 Theorem C15_bom_refuted :
-  exists data, trim_bom data <> data.
-Proof. exists utf8bom. vm_compute. discriminate. Qed.
+  exists c es c',
+    wf_chart parseK jsonK sanK semverK restK c /\
+    save encK lock_encK jsonK sanK semverK restK c = Some es /\ fits 1000 100 es /\
+    load_archive mergeK lock_decK parseK untarK sanK semverK restK 1000 100 1 (mkTS false es false) = inr c' /\
+    c_files c = [mkFile "bin/blob" (utf8bom ++ "abc")] /\ c_files c' = [mkFile "bin/blob" "abc"].
+Proof. exact bom_refuted. Qed.
 Print Assumptions C15_bom_refuted.
+
+(* ---------- ignore rules ---------- *)
+(* For every ignore predicate and every directory walk: loading with the rules equals
+   loading, without rules, the walk from which the ignored files (ignored themselves or below
+   an ignored directory) have been removed; and no file of the loaded chart — Raw, templates,
+   files: everything Save writes from — is an ignored one. *)
+Theorem C15_ignored_absent :
+  forall (md_merge : meta -> string -> option meta) (lock_dec : string -> option (option lockv))
+         (parse_values : string -> option val) (untar : string -> tstream)
+         (sanitize : meta -> meta) (is_semver : string -> bool) (rest_valid : meta -> bool)
+         (maxt maxf : Z) (ignored : string -> bool -> bool) (fuel : nat) (walk : list file),
+  load_dir_walk md_merge lock_dec parse_values untar sanitize is_semver rest_valid maxt maxf ignored fuel walk =
+  load_dir_walk md_merge lock_dec parse_values untar sanitize is_semver rest_valid maxt maxf (fun _ _ => false) fuel
+                (filter (fun f => negb (eff_ignored ignored (f_name f))) walk) /\
+  forall c, load_dir_walk md_merge lock_dec parse_values untar sanitize is_semver rest_valid maxt maxf ignored fuel walk = inr c ->
+    Forall (fun f => eff_ignored ignored (f_name f) = false) (c_raw c) /\
+    (forall f, In f (c_templates c) \/ In f (c_files c) -> eff_ignored ignored (f_name f) = false).
+Proof. exact ignored_absent. Qed.
+Print Assumptions C15_ignored_absent.
+
+(* ---------- invalid charts are not packaged ---------- *)
+(* Save (hence `helm package`, `helm dependency update` of file:// dependencies) refuses a chart
+   whose (sanitised) name is not its own base name or whose version is not a semantic version *)
+Theorem C15_invalid_not_packaged :
+  forall (md_enc : meta -> string) (lock_enc : lockv -> string) (json_valid : string -> bool)
+         (sanitize : meta -> meta) (is_semver : string -> bool) (rest_valid : meta -> bool) (c : chart),
+  String.eqb (path_base (m_name (sanitize (c_meta c)))) (m_name (sanitize (c_meta c))) = false \/
+  is_semver (m_version (sanitize (c_meta c))) = false ->
+  save md_enc lock_enc json_valid sanitize is_semver rest_valid c = None.
+Proof. exact invalid_not_saved. Qed.
+Print Assumptions C15_invalid_not_packaged.
+
+(* action.Package.Run with an optional --version override *)
+Theorem C15_invalid_not_packaged_action :
+  forall (md_enc : meta -> string) (lock_enc : lockv -> string) (json_valid : string -> bool)
+         (sanitize : meta -> meta) (is_semver : string -> bool) (rest_valid : meta -> bool)
+         (dep_names : meta -> list string) (ver : string) (c : chart),
+  let m := if String.eqb ver "" then c_meta c else set_version (c_meta c) ver in
+  is_semver (m_version m) = false \/
+  String.eqb (path_base (m_name (sanitize m))) (m_name (sanitize m)) = false \/
+  is_semver (m_version (sanitize m)) = false ->
+  package md_enc lock_enc json_valid sanitize is_semver rest_valid dep_names ver c = None.
+Proof. exact invalid_not_packaged. Qed.
+Print Assumptions C15_invalid_not_packaged_action.
+
+Example C15_invalid_not_packaged_ex :
+  String.eqb (path_base "charts/evil") "charts/evil" = false /\ String.eqb (path_base "good") "good" = true /\
+  String.eqb (path_base "../x") "../x" = false /\ String.eqb (path_base "a/") "a/" = false.
+Proof. exact base_examples. Qed.
+Print Assumptions C15_invalid_not_packaged_ex.
